@@ -98,10 +98,13 @@ type Case struct {
 	BeginFail bool   `json:"begin_fail"`
 	// BeginErr: what a failing begin reports - "" an injected error value, "invalidconn" the MySQL driver's
 	// ErrInvalidConn (the one a dropped connection produces). BeginOnce: only the first begin attempt fails.
-	BeginErr     string `json:"begin_err,omitempty"`
-	BeginOnce    bool   `json:"begin_once,omitempty"`
-	CommitFail   bool   `json:"commit_fail"`
-	RollbackFail bool   `json:"rollback_fail"`
+	BeginErr  string `json:"begin_err,omitempty"`
+	BeginOnce bool   `json:"begin_once,omitempty"`
+	// Translate: the db is opened with gorm.Config{TranslateError: true} (gorm then rewrites driver errors it adds
+	// itself - a step\'s own error must still come back unchanged)
+	Translate    bool `json:"translate,omitempty"`
+	CommitFail   bool `json:"commit_fail"`
+	RollbackFail bool `json:"rollback_fail"`
 }
 
 var Backends = []string{"pool", "sqldrv"}
@@ -351,7 +354,7 @@ func (x *sqlTx) Rollback() error { x.c.inTx = false; return x.c.log.rollback() }
 // ---------------------------------------------------------------------------
 // opening gorm on a fake
 
-func openGorm(backend string, log *eventLog) (db *gorm.DB, closeFn func(), err error) {
+func openGorm(backend string, log *eventLog, translate bool) (db *gorm.DB, closeFn func(), err error) {
 	closeFn = func() {}
 	var pool gorm.ConnPool
 	switch backend {
@@ -363,7 +366,7 @@ func openGorm(backend string, log *eventLog) (db *gorm.DB, closeFn func(), err e
 		pool = &memPool{log: log}
 	}
 	db, err = gorm.Open(mysql.New(mysql.Config{Conn: pool, SkipInitializeWithVersion: true}),
-		&gorm.Config{Logger: logger.Discard, DisableAutomaticPing: true})
+		&gorm.Config{Logger: logger.Discard, DisableAutomaticPing: true, TranslateError: translate})
 	return db, closeFn, err
 }
 
@@ -442,8 +445,13 @@ func (r *run) leafFn(i int, s Step) gormx.GormProcFn {
 		}
 		switch s.Kind {
 		case KErr:
-			r.returned[i] = stepError{i}
-			return stepError{i}
+			var e error = stepError{i}
+			if s.PV == PVDup {
+				// what a duplicate-key INSERT reports: callers look for it with errors.As / IsDupError
+				e = &mysqldrv.MySQLError{Number: 1062, Message: fmt.Sprintf("Duplicate entry of step %d", i)}
+			}
+			r.returned[i] = e
+			return e
 		case KPanic:
 			if s.PV == PVRuntime {
 				var empty []int
@@ -511,7 +519,7 @@ func Exec(c Case) *vkit.Result {
 	r := &run{log: log, leaves: leaves, returned: map[int]error{}, cancelAt: -1}
 	fns := r.build(c.Steps)
 
-	db, closeFn, err := openGorm(backend, log)
+	db, closeFn, err := openGorm(backend, log, c.Translate)
 	defer closeFn()
 	if err != nil {
 		panic(fmt.Sprintf("harness: gorm.Open on the %s fake failed: %v", backend, err))
@@ -1050,14 +1058,19 @@ func genLeaf(t *rapid.T, failing bool) Step {
 		return Step{Kind: KOk}
 	}
 	switch rapid.IntRange(0, 4).Draw(t, "failkind") {
-	case 0, 1:
+	case 0:
 		return Step{Kind: KErr}
+	case 1:
+		return Step{Kind: KErr, PV: rapid.SampledFrom([]string{"", PVDup}).Draw(t, "errkind")}
 	case 2:
 		return Step{Kind: KExecFail}
 	default:
 		return Step{Kind: KPanic, PV: rapid.SampledFrom(pvKinds).Draw(t, "pv")}
 	}
 }
+
+// PVDup on an "err" step: the error is the MySQL driver's duplicate-entry error.
+const PVDup = "dup"
 
 // genTree wraps a flat list of leaves into a random Combine tree (depth <= 3),
 // sprinkling empty Combine() calls.
@@ -1151,6 +1164,7 @@ func Gen(t *rapid.T) Case {
 		c.BeginErr = rapid.SampledFrom([]string{"", "invalidconn"}).Draw(t, "beginErr")
 		c.BeginOnce = rapid.Bool().Draw(t, "beginOnce")
 	}
+	c.Translate = rapid.IntRange(0, 3).Draw(t, "translate") == 0
 	c.CommitFail = rapid.IntRange(0, 2).Draw(t, "commitFail") == 2
 	c.RollbackFail = rapid.IntRange(0, 2).Draw(t, "rollbackFail") == 2
 	return c
